@@ -218,7 +218,9 @@ fn main() {
         let mut good = judge(&mut rep, idx, &sc, &out, &before, &cands, "free", &ctx);
         let ncand = cands.len();
         // 2. schedules
-        if good && small && sc.shards <= 3 && ncand <= 2 && ncand >= 1 {
+        if cli.small {
+            // under Miri the interpreter's own scheduler (one seed per process) explores the interleavings
+        } else if good && small && sc.shards <= 3 && ncand <= 2 && ncand >= 1 {
             let mut scripts = vec![];
             for w in worker_interleavings(&vec![ncand; sc.shards]) {
                 if sc.owned {
